@@ -18,6 +18,7 @@ EXPLANATION = (
     "the chunk header are the same value; ack_chunks truncates at the position found by an equality test on the sequence.  "
     "R1 also requires the eager scan to visit every chunk (its loop ends only on the iterator's None edge) and R4 that resend writes each retransmitted chunk with its own stored sequence number.  Not decided: ordering / duplication over loss, reordering and wrap-around."
 )
+EXPLANATION += ("  Round 4: the lazy site may be the closure of ReceiveChunks::next or, written as a loop, next itself: from the non-Current edge no chunk is yielded before the next one is fetched; `ack advances only on Current` also accepts a match on the ordering's discriminant.")
 ASSUMPTIONS = ["the application drains every event iterator (lazy replay relies on it)"]
 
 # allowed (state variant before, dominating packet kind or API, new state variant)
